@@ -305,7 +305,8 @@ def make_module(cfg):
 
         src, src_t = top("s")
         dst, dst_t = top("d")
-        sd = src.state_dict()
+        snt = bool(cfg.get("store_non_tensors"))
+        sd = src.state_dict(store_non_tensors=True) if snt else src.state_dict()
         found = []
 
         def walk(x):
@@ -314,7 +315,7 @@ def make_module(cfg):
             elif isinstance(x, dict):
                 for v in x.values():
                     walk(v)
-            else:
+            elif not snt:
                 symx.prove("state-dict holds only dicts and tensors", False, info)
 
         walk(sd)
@@ -325,7 +326,7 @@ def make_module(cfg):
         ids_before = [id(t) for t in dst_t]
         arrs_before = [t.a for t in dst_t]
         try:
-            dst.load_state_dict(sd)
+            dst.load_state_dict(sd, store_non_tensors=True) if snt else dst.load_state_dict(sd)
         except Exception as e:
             symx.prove(f"a module loads the state dict of a structurally equal module ({type(e).__name__}: {str(e)[:80]})", False, info)
         # tensor objects stay, contents are the loaded ones
@@ -464,6 +465,9 @@ def run(tier, seed, argv):
     mjobs = [dict(id=f"m{i}", module="checks.c16", factory="make_module", cfg=dict(graph=g, symkeys=bool(i % 2), layout_shift=i % len(LAYOUTS))) for i, g in enumerate(module_graphs())]
     if tier == "quick":
         mjobs = mjobs[:30]
+    # the documented non-default store_non_tensors=True: tensors are still loaded in place
+    mjobs += [dict(id=f"n{i}", module="checks.c16", factory="make_module", cfg=dict(graph=g, symkeys=bool(i % 2), layout_shift=i % len(LAYOUTS), store_non_tensors=True))
+              for i, g in enumerate(module_graphs()[: (10 if tier == "quick" else 40)])]
     # shared (non-tensor) objects: the first attribute's container / module is also reachable through a second attribute
     sh = [g for g in module_graphs() if g[0] != "T"]
     mjobs += [dict(id=f"h{i}", module="checks.c16", factory="make_module", cfg=dict(graph=g, symkeys=bool(i % 2), layout_shift=i % len(LAYOUTS), shared=True))
@@ -584,11 +588,12 @@ def replay(record):
 
         src, st = top(1.0)
         dst, dt = top(100.0)
-        sd = src.state_dict()
+        snt = bool(cfg.get("store_non_tensors"))
+        sd = src.state_dict(store_non_tensors=True) if snt else src.state_dict()
         ids = [id(t) for t in dt]
         probs = []
         try:
-            dst.load_state_dict(sd)
+            dst.load_state_dict(sd, store_non_tensors=True) if snt else dst.load_state_dict(sd)
         except Exception as e:
             probs.append(f"loading the state dict of a structurally equal module raises {type(e).__name__}: {e}")
         cnt = [0]
